@@ -44,7 +44,7 @@ PROPS["C14"] = {
              "manner (client shutdown, carrier reset, garbage frame, partition until the multiplexer keep-alive gives up, or not at all) and compares with idle; "
              "footprint = goroutines of the bubble grouped by creation site (harness excluded) + open simulated sockets/listeners; non-trivial = both batches "
              "completed; distinct = schedule shapes"),
-    "probes": ["logical_connections", "connections_open_at_session_end", "runs_with_a_crowd_of_connections", "refused_connections", "silent_peers", "runs_with_scheduling_points", "session_end_checked", "fault_carrier_reset", "fault_carrier_timeout", "fault_partition", "fault_garbage_frame", "end_client_shutdown", "end_server_closes", "session_lost_mid_history", "history_incomplete", "history_incomplete_known_smux_race", "partitions_with_a_write_in_flight", "silent_peers_after_the_announcement", "silent_peers_lost_without_a_trace", "silent_logical_connections"],
+    "probes": ["logical_connections", "connections_open_at_session_end", "runs_with_a_crowd_of_connections", "refused_connections", "silent_peers", "runs_with_scheduling_points", "session_end_checked", "fault_carrier_reset", "fault_carrier_timeout", "fault_partition", "fault_garbage_frame", "end_client_shutdown", "end_server_closes", "session_lost_mid_history", "history_incomplete", "history_incomplete_known_smux_race", "partitions_with_a_write_in_flight", "silent_peers_after_the_announcement", "silent_peers_lost_without_a_trace", "silent_logical_connections", "fault_partition_for_ever"],
     "technique": "deterministic simulation: histories of N and 2N connections and fault-ended sessions, resource-ledger oracle + busy-loop detector",
     "level_text": ("Seeded exploration of connection histories and session endings. The oracle is a resource ledger taken at quiescent points after a drain of 150 "
                    "simulated seconds: constant (not linear) in the number of past connections, back to idle after the session ended, and no goroutine that emits "
